@@ -5,7 +5,7 @@
 
 #include "../common.h"
 #include "AbstractArray.h"
-#include "FixedArrayView.h"
+#include "FixedArray.h"
 
 namespace rkcommon {
   namespace utility {
@@ -26,9 +26,10 @@ namespace rkcommon {
                      size_t size);
 
      private:
-      // The underlying array from the fixed array being viewed, to keep
-      // the data alive for the view's lifetime
-      std::shared_ptr<FixedArray<T>> data;
+      // A copy of the fixed array being viewed: it shares the underlying
+      // allocation and so keeps the data alive for the view's lifetime, even
+      // if the viewed FixedArray is reassigned or destroyed in the meantime
+      FixedArray<T> data;
     };
 
     // Inlined FixedArrayView definitions
@@ -37,9 +38,9 @@ namespace rkcommon {
     FixedArrayView<T>::FixedArrayView(std::shared_ptr<FixedArray<T>> &_data,
                                       size_t offset,
                                       size_t size)
-        : data(_data)
+        : data(*_data)
     {
-      AbstractArray<T>::setPtr(data->begin() + offset, size);
+      AbstractArray<T>::setPtr(data.begin() + offset, size);
     }
 
   }  // namespace utility
